@@ -366,9 +366,11 @@ def type_expr(T: dict) -> str:
     if k == "obj":
         return T["cls"]
     if k == "dunion":
-        mapping = "{" + ", ".join(f"{key!r}: {type_expr(a)}" for key, a in zip(T["keys"], T["alts"])) + "}"
-        default = all(a["k"] == "obj" and a["cls"] == key for key, a in zip(T["keys"], T["alts"]))
-        args = repr(T["alias"]) if default else f"{T['alias']!r}, {mapping}"
+        if T.get("mode", "explicit") == "default":
+            args = repr(T["alias"])
+        else:
+            mapping = "{" + ", ".join(f"{key!r}: {type_expr(a)}" for keys, a in zip(T["keys"], T["alts"]) for key in keys) + "}"
+            args = f"{T['alias']!r}, {mapping}"
         return "Annotated[Union[" + ", ".join(type_expr(a) for a in T["alts"]) + f"], discriminator({args})]"
     raise ValueError(f"bad type {T}")
 
